@@ -1037,6 +1037,103 @@ theorem history_safe_all_ev (cfg : Cfg) (hcfg : HashSafe cfg) (hist : List Ev) (
       obtain ⟨h1, h2⟩ := ih (st.fileOrder uo co) h' (fun e he => hp e (by simp [he])) hg
       exact ⟨fun id hid => h1 id hid, h2⟩
 
+/-! ## `channel capability set/unset` save whatever they change (repair C02-channel-capability-half-applied) -/
+
+/-- `invertCapability` never raises on a capability (a single word) -/
+theorem invert_ok_of_isCapability {c : Str} (h : C03.isCapability c = true) : ∃ i, C03.invertCapability c = .ok i := by
+  unfold C03.invertCapability
+  simp only [h, Bool.not_true, Bool.false_eq_true, if_false]
+  split
+  · rename_i ha
+    unfold C03.unAntiCapability
+    simp only [h, ha, Bool.not_true, Bool.false_eq_true, if_false]
+    split <;> exact ⟨_, rfl⟩
+  · rename_i ha
+    unfold C03.makeAntiCapability
+    simp only [h, ha, Bool.not_true, Bool.false_eq_true, if_false]
+    split
+    · rename_i ch c' hs
+      have hcs : C03.isChannel ch = true ∧ C03.isCapability c' = true := by
+        unfold C03.chanSplit at hs
+        split at hs
+        · split at hs
+          · rename_i hh
+            injection hs with hs
+            injection hs with h1 h2
+            subst h1; subst h2
+            simpa using hh
+          · cases hs
+        · cases hs
+      have hc2 : C03.isCapability ('-' :: c') = true := by
+        have := hcs.2
+        unfold C03.isCapability at this ⊢
+        simp only [List.isEmpty_cons, Bool.not_false, Bool.true_and, List.all_cons, Bool.and_eq_true] at this ⊢
+        exact ⟨by decide, this.2⟩
+      unfold C03.makeChannelCapability
+      simp only [hc2, hcs.1, Bool.not_true, Bool.false_eq_true, if_false]
+      exact ⟨_, rfl⟩
+    · exact ⟨_, rfl⟩
+
+theorem capAdd_ok_of_isCapability (caps : List Str) {c : Str} (h : C03.isCapability c = true) :
+    ∃ s', C03.CapSet.add caps c = .ok s' := by
+  obtain ⟨i, hi⟩ := invert_ok_of_isCapability (c := C03.toLower c) (by rw [C03.isCapability_toLower]; exact h)
+  unfold C03.CapSet.add
+  simp only [hi]
+  exact ⟨_, rfl⟩
+
+theorem addCaps_complete (caps l : List Str) (h : l.all C03.isCapability = true) : (addCaps caps l).2 = true := by
+  induction l generalizing caps with
+  | nil => rfl
+  | cons c rest ih =>
+    simp only [List.all_cons, Bool.and_eq_true] at h
+    obtain ⟨s', hs'⟩ := capAdd_ok_of_isCapability caps h.1
+    unfold addCaps
+    simp only [h.1, Bool.not_true, Bool.false_eq_true, if_false, hs']
+    exact ih s' h.2
+
+theorem removeCaps_complete (caps l : List Str) (h : l.all C03.isCapability = true) : (removeCaps caps l).2.1 = true := by
+  induction l generalizing caps with
+  | nil => rfl
+  | cons c rest ih =>
+    simp only [List.all_cons, Bool.and_eq_true] at h
+    unfold removeCaps
+    simp only [h.1, Bool.not_true, Bool.false_eq_true, if_false]
+    split
+    · exact ih _ h.2
+    · exact ih _ h.2
+
+/-- **`channel capability set` / `unset` are saved or did nothing**: the capabilities are checked
+before the live channel record is touched, so whenever the command changed the state at all it
+went through `setChannel` and the saved channels file is the channels in memory.  (Before the
+repair an argument such as `"\tx"` stopped the loop after earlier capabilities had been removed
+in memory only: `unset #chan op "\tx"`, then SIGHUP, and `op` was back.) -/
+theorem chanCapSet_saved (cfg : Cfg) (st : St) (pfx chan : Str) (caps : List Str) (c : Cmd)
+    (hc : c = .chanCapSet chan caps ∨ c = .chanCapUnset chan caps) :
+    (body cfg st pfx c).1 = st ∨ (body cfg st pfx c).1.csaved = some (body cfg st pfx c).1.channels := by
+  rcases hc with rfl | rfl
+  · simp only [body]
+    split
+    · exact Or.inl rfl
+    · split
+      · exact Or.inl rfl
+      · split
+        · exact Or.inl rfl
+        · rename_i hall
+          have hall' : caps.all C03.isCapability = true := by simpa using hall
+          rw [addCaps_complete _ _ hall']
+          exact Or.inr rfl
+  · simp only [body]
+    split
+    · exact Or.inl rfl
+    · split
+      · exact Or.inl rfl
+      · split
+        · exact Or.inl rfl
+        · rename_i hall
+          have hall' : caps.all C03.isCapability = true := by simpa using hall
+          rw [removeCaps_complete _ _ hall']
+          exact Or.inr rfl
+
 /-! ## the statement of the property over whole histories -/
 
 /-- somewhere along the history, an entitled sender granted `x` to account `id` -/
